@@ -477,6 +477,11 @@ func (a *arun) refresh(id string, o op) {
 		m.Slots[i].LogicalBytes, m.Slots[i].StoredBytes = sm.LogicalBytes, sm.StoredBytes
 		m.Slots[i].Records, m.Slots[i].MaxMessageID = sm.Records, sm.MaxMessageID
 	}
+	if o.A == 2 && len(m.Slots) > 1 { // a manifest every object of which is bound, in another slot order
+		r := sub(o.Seed)
+		i, j := r.IntN(len(m.Slots)), r.IntN(len(m.Slots))
+		m.Slots[i], m.Slots[j] = m.Slots[j], m.Slots[i]
+	}
 	archiveTotals(&m, nil)
 	body, err := backup.MarshalArchiveManifest(m)
 	if err != nil {
@@ -676,6 +681,7 @@ func bodyInfo(b []byte) string {
 }
 
 func runArchive(in input) vh.Result {
+	resetStrings()
 	a := &arun{st: &memStore{objs: map[string]obj{}}, ids: map[string]int{}, built: map[string]*built{}}
 	for _, o := range in.Ops {
 		a.run(o)
@@ -690,7 +696,7 @@ func runArchive(in input) vh.Result {
 	}
 	class += " -> " + strings.Join(a.verdict, ",")
 	return vh.Result{
-		Coq:     vh.App("CaseArchive", vh.List(infos), vh.List(a.trace)),
+		Coq:     withStrings(vh.App("CaseArchive", vh.List(infos), vh.List(a.trace))),
 		Obs:     map[string]any{"labels": a.labels, "verify": a.verdict, "objects": len(a.st.objs), "bodies": len(a.bodies)},
 		Class:   class,
 		Trivial: len(a.trace) == 0,
@@ -747,6 +753,10 @@ func genArchive(r *rand.Rand, tier string) input {
 			add(op{Op: "read", S: id, T: genTarget(r), A: vh.Pick(r, 0, 1, 10, 300, 800, 1<<20)})
 		case 4:
 			add(op{Op: "msgidx", S: id, Seed: seed(), B: r.IntN(5), C: r.IntN(4)})
+		case 5: // the same archive re-bound (possibly in another slot order), nothing else changed
+			add(op{Op: "refresh", S: id, A: vh.Pick(r, 0, 2, 2), Seed: seed()})
+			add(op{Op: "verify", S: id})
+			add(op{Op: "restore"})
 		default:
 			// one mutation (sometimes two), verify, undo
 			add(op{Op: "mut", S: id, T: genTarget(r), A: r.IntN(len(hows)), B: r.IntN(1000), U: genTarget(r), Seed: seed()})
@@ -754,7 +764,7 @@ func genArchive(r *rand.Rand, tier string) input {
 				add(op{Op: "mut", S: id, T: genTarget(r), A: r.IntN(len(hows)), B: r.IntN(1000), U: genTarget(r), Seed: seed()})
 			}
 			if r.IntN(5) == 0 {
-				add(op{Op: "refresh", S: id, A: r.IntN(2)})
+				add(op{Op: "refresh", S: id, A: r.IntN(3), Seed: seed()})
 			}
 			add(op{Op: "verify", S: id})
 			if r.IntN(3) == 0 {
